@@ -12,6 +12,9 @@ structure G where
   /-- draw names from a handful of words only, so that local names are reused across namespaces and
       across kinds (type, element, local element, attribute): the C09 stream -/
   smallPool : Bool := false
+  /-- WSDL messages may keep parts that are bound neither as body nor as header (accepted by the tool,
+      outside the subset the C05 oracle speaks about; used by the determinism check) -/
+  multiBody : Bool := false
   /-- PascalCase images already used for type-like items, per namespace -/
   usedTypes : List (Nat × String) := []
 deriving Inhabited
@@ -178,6 +181,18 @@ partial def genParticles (p : Plan) (ns rank : Nat) (depth : Nat) (rep : Bool) (
       let (ps, u) ← genParticles p ns rank (depth + 1) (rep || o.max != some 1) used (k + 1)
       used := u
       out := out ++ [if r == 0 then .seq o ps else .choice o ps]
+    else if r == 19 && depth < 2 then
+      -- a chain: a repeating group whose only member is a non-repeating group with a single plain member
+      -- (the only way a member's repeatability comes from a particle that is not its direct parent and
+      -- a repeated instance keeps its order)
+      let outer : Occurs := { min := (← below 2), max := if (← chance 1 2) then none else some 3 }
+      let inner : Occurs := { min := (← below 2), max := some 1 }
+      let name ← freshMemberName used
+      used := Ref.fieldName name :: used
+      let t ← genMemberType p ns rank true false
+      let leaf : Particle := .elem name t { min := (← below 2), max := some 1 }
+      let innerP : Particle := if (← chance 1 2) then .seq inner [leaf] else .choice inner [leaf]
+      out := out ++ [if (← chance 1 2) then .seq outer [innerP] else .choice outer [innerP]]
     else if r < 4 then
       -- element reference: only to elements of lower rank, in a namespace lookups may reach
       let cands := p.items.filter fun it => (it.kind == "elemAnon" || it.kind == "elemTyped") && it.rank < rank && p.lookupOk ns it.ns
@@ -257,8 +272,12 @@ def genSchemaSet (cyclic : Bool) (forWsdl : Bool := false) : M SchemaSet := do
   let start ← if cyclic then below nNs
     else if forWsdl then pure (nNs - 1)
     else pure (nNs - 1 - (← below (if nNs > 1 && (← chance 1 4) then 2 else 1)))
-  let typeOk := fun i j => i == j || edges.contains (i, j)
-  let lookupOk := fun i j => i == j || (!cyclic && j < i && edges.contains (i, j))
+  -- silent imports: the importing file binds no prefix for that namespace (and so cannot refer into it)
+  let mut silent : List (Nat × Nat) := []
+  for e in edges do
+    if e.1 != e.2 && (← chance 1 5) then silent := silent ++ [e]
+  let typeOk := fun i j => i == j || (edges.contains (i, j) && !silent.contains (i, j))
+  let lookupOk := fun i j => i == j || (!cyclic && j < i && edges.contains (i, j) && !silent.contains (i, j))
   -- plan the named items
   let mut items : List Planned := []
   let mut rank := 0
@@ -309,8 +328,9 @@ def genSchemaSet (cyclic : Bool) (forWsdl : Bool := false) : M SchemaSet := do
       let k ← below (shuffled.length + 1)
       shuffled := shuffled.take k ++ [c] ++ shuffled.drop k
     -- prefixes: own namespace as `tns` (every file uses the same prefix for a different URI), others `nK` or short
-    let style ← below 3
-    let mut prefixes : List (Nat × String) := [(ns, if style == 0 then "tns" else "p" ++ toString ns)]
+    -- style 3: the file's own namespace is its default namespace (no prefix is bound to it)
+    let style ← below (if forWsdl && ns + 1 == nNs then 3 else 4)
+    let mut prefixes : List (Nat × String) := [(ns, if style == 0 then "tns" else if style == 3 then "" else "p" ++ toString ns)]
     for j in [0:nNs] do
       if j != ns && typeOk ns j then
         prefixes := prefixes ++ [(j, if style == 2 then "q" ++ toString j else "p" ++ toString j)]
@@ -337,7 +357,7 @@ partial def freshOpName (usedP usedS : List String) : M String := do
 def genWsdlSet : M SchemaSet := do
   let s ← genSchemaSet false true
   let some f := s.files[s.start]? | pure s
-  let lookupOk := fun (j : Nat) => j == f.tns || (j < f.tns && f.imports.contains j)
+  let lookupOk := fun (j : Nat) => j == f.tns || (j < f.tns && f.imports.contains j && f.prefixes.any (·.1 == j))
   -- global elements the messages may refer to
   let elems : List (Nat × String) := s.files.flatMap fun g =>
     if !lookupOk g.tns then [] else g.comps.filterMap fun c => match c with
@@ -373,8 +393,14 @@ def genWsdlSet : M SchemaSet := do
       -- which part is the body: a random one; the others are headers
       let bi ← below parts.length
       let body := (parts.getD bi default).name
-      let headers := names.filter (· != body)
-      let explicit ← chance 1 2
+      let multi := (← get).multiBody
+      let mut headers := names.filter (· != body)
+      if multi then
+        let mut hs : List String := []
+        for h in headers do
+          if (← chance 1 2) then hs := hs ++ [h]
+        headers := hs
+      let explicit ← if multi then chance 1 4 else chance 1 2
       let mname := opName ++ tag ++ toString k
       pure ({ name := mname, parts := parts }, { message := mname, bodyParts := if explicit then some body else none, headers := headers })
     let (mi, di) ← mkDir "In"
@@ -394,8 +420,8 @@ def genWsdlSet : M SchemaSet := do
                     binding := svc ++ "Binding", ops := ops, service := svc, port := svc ++ "Port", address := (← pick urlPool) }
   pure { s with files := s.files.set s.start f', wsdl := some w }
 
-def runWsdl (seed : Nat) (smallPool : Bool := false) : SchemaSet :=
-  (genWsdlSet.run { seed := seed * 2654435761 + 777, smallPool := smallPool }).1
+def runWsdl (seed : Nat) (smallPool : Bool := false) (multiBody : Bool := false) : SchemaSet :=
+  (genWsdlSet.run { seed := seed * 2654435761 + 777, smallPool := smallPool, multiBody := multiBody }).1
 
 def run (seed : Nat) (cyclic : Bool := false) (smallPool : Bool := false) : SchemaSet :=
   ((genSchemaSet cyclic).run { seed := seed * 2654435761 + 12345, smallPool := smallPool }).1
